@@ -1,0 +1,32 @@
+//go:build verif
+
+package pdf
+
+import "io"
+
+// This file is only compiled with the build tag "verif".  It gives an
+// external verification harness access to the unexported error plumbing of
+// DecodeStream (sourceErrChecker, promote, sourceAwareReader); it adds no
+// behaviour of its own.
+
+// VerifSourceAware wires a raw reader and a caller-supplied filter stack
+// exactly as DecodeStream does: the stack reads through a sourceErrChecker,
+// an error of the constructor is passed through promote, and the result is
+// wrapped in a sourceAwareReader.
+func VerifSourceAware(raw io.Reader, build func(src io.Reader) (io.ReadCloser, error)) (io.ReadCloser, error) {
+	src := &sourceErrChecker{r: raw}
+	out, err := build(src)
+	if err != nil {
+		return nil, src.promote(err)
+	}
+	return &sourceAwareReader{inner: out, src: src}, nil
+}
+
+// VerifSourceErr returns the sticky source error recorded below a reader
+// made by VerifSourceAware or DecodeStream (nil if none or not applicable).
+func VerifSourceErr(r io.Reader) error {
+	if s, ok := r.(*sourceAwareReader); ok {
+		return s.src.Err()
+	}
+	return nil
+}
